@@ -312,7 +312,9 @@ Straight == [tpl : {"straight"}, op1 : Ops, op2 : Ops, op3 : Ops, pres : {Plain}
 CallP == [tpl : {"call"}, f : Callees, g : Callees, op : {"+", "-", "*"}, pres : {Plain}]
 RecP == [tpl : {"rec"}, op : {"+", "*", "-"}, c0 : {0, 1}, d : {1, 2}, pres : {Plain}]
 Closure == [tpl : {"closure"}, op : Ops, op2 : {"+", "-", "*"}, pres : {Plain}]
-HoistArms == [tpl : {"hoistarms"}, cmp : {">=", ">", "<", "<="}, pres : {Plain}]
+\* src: where the two hoisted arguments come from — two calls ("pick"), the two results of ONE multi-value call
+\* ("split": SSA Extract values, which carry no source position), or two slice expressions ("slice"); same function
+HoistArms == [tpl : {"hoistarms"}, cmp : {">=", ">", "<", "<="}, src : {"pick", "split", "slice"}, pres : {Plain}]
 BigLoop == [tpl : {"bigloop"}, ks : {100, 200}, kt : {32, 64}, pres : {Plain}]
 SelectOne == [tpl : {"selectone"}, first : {"ca", "cb"}, pres : {Plain}]
 IVWidth == [tpl : {"ivwidth"}, ty : {"uint8", "uint16"}, pres : {Plain}]
